@@ -364,6 +364,7 @@ _TERM_GROUPS = [
     ["ret_insert", "ret_insert_many", "ret_update"],
     ["orm_entity", "orm_cprop", "orm_deferred", "orm_refresh"],
     ["orm_exec", "orm_scalars", "orm_aliased"],
+    ["ret_supplemental", "orm_bulk_returning"],  # rewound supplemental RETURNING (insertmanyvalues + sentinel tuple filter)
 ]
 
 
@@ -373,7 +374,7 @@ def contexts(castable=False):
     return st.fixed_dictionaries(
         {
             "wraps": st.lists(st.sampled_from(wraps), max_size=3),
-            "term": st.one_of([st.sampled_from(g) for g in _TERM_GROUPS[2:] + _TERM_GROUPS[:2]]),
+            "term": st.one_of([st.sampled_from(g) for g in _TERM_GROUPS[2:4] + _TERM_GROUPS[4:] + _TERM_GROUPS[:2]]),
             "write": st.sampled_from(WRITES[1:] + WRITES[:1]),
             "split": st.integers(0, 4),
         }
@@ -407,6 +408,8 @@ class Harness:
         self.md.create_all(self.eng)
         self.reg = None
         self.Cls = None
+        self.raw_table = "t"
+        self.effective_values = None  # set when a read context had to write a different value list (>= 2 parameter sets)
 
     def close(self):
         if self.reg is not None:
@@ -474,7 +477,56 @@ class Harness:
 
     def raw(self):
         with self.eng.connect() as conn:
-            return [r[0] for r in conn.exec_driver_sql("select c from t order by id").all()]
+            return [r[0] for r in conn.exec_driver_sql(f"select c from {self.raw_table} order by id").all()]
+
+    def read_rewound(self, term, split, vals):
+        """insertmanyvalues (>= 2 parameter sets) + sort_by_parameter_order + supplemental RETURNING on a table whose insert
+        sentinel is an extra trailing RETURNING column: the result is fetched once internally and then *rewound*"""
+        import itertools
+
+        sa = self.sa
+        vals = list(vals) if len(vals) >= 2 else list(vals) * 2
+        self.effective_values = vals
+        counter = itertools.count(1)
+        md2 = sa.MetaData()
+        explicit_sentinel = term == "ret_supplemental" and split % 2 == 1
+        if explicit_sentinel:
+            ts = sa.Table("ts", md2, sa.Column("id", sa.Integer, primary_key=True), sa.Column("c", self.coltype, nullable=True), sa.insert_sentinel("sentinel"))
+        else:
+            # client-side default primary key (deterministic counter): qualifies as sentinel, is not part of the implicit RETURNING
+            ts = sa.Table("ts", md2, sa.Column("id", sa.Integer, primary_key=True, autoincrement=False, default=lambda: next(counter)), sa.Column("c", self.coltype, nullable=True))
+        md2.create_all(self.eng)
+        self.raw_table = "ts"
+        params = [{"c": v} for v in vals]
+        if term == "ret_supplemental":
+            with self.eng.begin() as conn:
+                res = conn.execute(ts.insert().return_defaults(supplemental_cols=[ts.c.c], sort_by_parameter_order=True), params)
+                a = [r._mapping[ts.c.c] for r in res.returned_defaults_rows]
+                pks = res.inserted_primary_key_rows
+                b = [r._mapping[ts.c.c] for r in res.all()]  # the rewound rows
+            if len(pks) != len(vals):
+                return [("PKROWS", len(pks))], ["returning", "rewound"]
+            try:
+                same = a == b
+            except Exception:
+                same = False
+            return (b if not same else a), ["returning", "rewound"] + (["explicit_sentinel"] if explicit_sentinel else ["default_pk_sentinel"])
+        from sqlalchemy.orm import Session, registry
+
+        reg2 = registry()
+
+        class Cls2:
+            pass
+
+        reg2.map_imperatively(Cls2, ts)
+        try:
+            with Session(self.eng) as s:
+                objs = s.execute(sa.insert(Cls2).returning(Cls2, sort_by_parameter_order=True), params).scalars().all()
+                out = [o.c for o in objs]
+                s.commit()
+        finally:
+            reg2.dispose()
+        return out, ["returning", "rewound", "orm", "default_pk_sentinel"]
 
     # ---- read -------------------------------------------------------------------
     def build_select(self, wraps, split, idc, cc):
@@ -533,6 +585,8 @@ class Harness:
                 return [r.oc for r in conn.execute(u)], applied + ["union"]
         from sqlalchemy.orm import Session, aliased, undefer
 
+        if term in ("ret_supplemental", "orm_bulk_returning"):
+            return self.read_rewound(term, split, values_for_returning)
         if term in ("ret_insert", "ret_insert_many", "ret_update"):
             vals = values_for_returning
             with self.eng.begin() as conn:
@@ -598,6 +652,8 @@ def check_roundtrip(case, ctx):
     try:
         h.write(cx["write"], want)
         got, applied = h.read(cx, want)
+        if h.effective_values is not None:
+            want = h.effective_values
     finally:
         h.close()
     special = any(is_special(spec, e) for e in encs)
@@ -612,7 +668,7 @@ def check_roundtrip(case, ctx):
     for g, w in zip(got, want):
         why = values_equal(spec, g, w)
         if why:
-            where = "returning" if cx["term"].startswith("ret_") else ("orm" if cx["term"].startswith("orm") else "select")
+            where = "rewound-returning" if "rewound" in applied else "returning" if cx["term"].startswith("ret_") else ("orm" if cx["term"].startswith("orm") else "select")
             raise Violation(
                 f"C09/roundtrip/{spec['k']}/{why.split()[0]}/{where}",
                 f"{spec} via write={cx['write']} read={cx['term']}{applied}: wrote {w!r} read {g!r} ({why})",
@@ -837,6 +893,9 @@ def check_once(case, ctx):
         counters["result"] = 0
         got, applied = h.read(cx, want)
         read_binds, read_results = counters["bind"], counters["result"]
+        if h.effective_values is not None:
+            want = h.effective_values
+            nn = sum(1 for v in want if v is not None)
         raw_after = h.raw()
     finally:
         h.close()
@@ -862,7 +921,7 @@ _DIALECT_SENSITIVE_IMPL = {"datetime"}
 
 def _judge_once(case, kind, cx, term, probe_fail, want, got, raw, raw_after, applied, nn, wrap, binds_after_write, expected_binds, decoy_counters, read_binds, read_results):
 
-    where = "returning" if term.startswith("ret_") else ("orm" if term.startswith("orm") else "select")
+    where = "rewound-returning" if "rewound" in applied else "returning" if term.startswith("ret_") else ("orm" if term.startswith("orm") else "select")
     # bind side of the original write
     if binds_after_write != expected_binds:
         raise Violation(f"C09/once/bind-count/write={cx['write']}", f"{kind}: bind processor ran {binds_after_write}x for {expected_binds} non-None values (write={cx['write']})", observed=binds_after_write, expected=expected_binds)
@@ -877,7 +936,7 @@ def _judge_once(case, kind, cx, term, probe_fail, want, got, raw, raw_after, app
     if probe_fail:
         raise Violation(f"C09/once/probe/{probe_fail[0]}", f"{kind}: probe {probe_fail[0]} observed {probe_fail[1]} expected {probe_fail[2]}; processor calls {probe_fail[3]} expected {probe_fail[4]}", observed=repr(probe_fail[1:]), expected=None)
     # read side
-    if term.startswith("ret_"):
+    if term.startswith("ret_") or "rewound" in applied:
         if read_binds != nn:
             raise Violation(f"C09/once/bind-count/{term}", f"{kind}: {term} bound {nn} values, bind processor ran {read_binds}x", observed=read_binds, expected=nn)
         for r, w in zip(raw_after, want):
